@@ -53,12 +53,16 @@ def same_circuit(a, b):
     return None
 
 
+EXAMINED = []       # the programs roundtrip examined (handed to the model correspondence, slmodel)
+
+
 def roundtrip(ctx, program):
     import matplotlib.pyplot as plt
     from CircuitCalculator.SimpleCircuit import dump_load as sdl
     import c13
     program = c13.clean(program)
     ctx.evaluations += 1
+    EXAMINED.append(program)
     rep = {'program': program}
     try:
         d, _ = drawgen.build(program)
@@ -229,6 +233,8 @@ def run(ctx):
                     roundtrip(ctx, p)
         for _ in range(12 if ctx.tier == 'quick' else 300):
             declarative(ctx, rng)
+        import slmodel
+        slmodel.correspond(ctx, EXAMINED)
     return RULE
 
 
@@ -237,7 +243,10 @@ def replay(ctx, obj):
     if standard_prologue(ctx):
         c = obj['case']
         if 'program' in c:
-            roundtrip(ctx, c['program'])
+            import slmodel
+            if 'direct' not in c['program']:
+                roundtrip(ctx, c['program'])
+            slmodel.replay(ctx, c['program'])
         else:
             run(ctx)
     return RULE
